@@ -158,6 +158,14 @@ def h_roundtrip(params, h0: str, h1: str):
         require(len(log) == 0, "warning on a well-formed changelog", text=text, warning=str(log[0].message) if log else "")
     out = str(c)
     require(out == text, "str() does not reproduce the text", text=text, out=out)
+    if params.get("reuse"):
+        # the same object reads a second, different well-formed text (no state may leak)
+        lines2, blocks2 = make("min", dict(DEFAULT))
+        text2 = "\n".join(lines2) + "\n"
+        c.parse_changelog([l + "\n" for l in lines2], strict=True)
+        require(str(c) == text2, "a re-used Changelog object does not reproduce the second text", first=text, second=text2, out=str(c))
+        c.parse_changelog(src, strict=True)
+        require(str(c) == text, "a re-used Changelog object does not reproduce the first text again", text=text, out=str(c))
     got = list(c)
     require(len(got) == len(blocks), "block count", got=len(got), want=len(blocks))
     for g, w in zip(got, blocks):
@@ -265,6 +273,9 @@ def partitions(tier, seed):
             "full": set(holes1), "noweekday": {"pkg", "ver", "dist", "urg", "text", "name", "email"},
             "leading": {"pkg", "ver", "dist", "urg", "comment", "text", "name", "email"},
             "two": {"pkg", "ver", "dist", "urg", "key", "value", "text", "name", "email"}, "two-full": set(holes1)}
+    for shape in ("leading", "two-full"):
+        P.append(dict(name="reuse/%s" % shape, harness="h_roundtrip", params=dict(shape=shape, hole=["text"], lens=[1], reuse=True),
+                      budget=90 if q else 600, reach=[], bounds="template %s parsed, then a second text, then the first again with the same object" % shape))
     for shape in (("min", "full") if q else SHAPES):
         for h in holes1:
             if h not in uses[shape]:
